@@ -328,3 +328,88 @@ Section T.
     exists fw_r0, fw_msg, fw_a1, fw_ttlres, fw_a2. destruct fw_ttl as [T1 T2]. repeat split; assumption.
   Qed.
 End T.
+
+Section O.
+  Variable md5 : bytes -> bytes.
+  Variable rx : N -> bytes -> option (list (Z * Z)).
+  Variable cfg : config.
+  Variable fs : N -> bool.
+
+  Lemma filter_no_enq (o : list out) : (forall x, In x o -> is_enq x = false) -> filter is_enq (o ++ [ORet 1]) = [].
+  Proof.
+    intro H. rewrite filter_app. cbn [filter is_enq]. rewrite app_nil_r.
+    induction o as [|x o IH]; [reflexivity|]. cbn [filter]. rewrite (H x (or_introl eq_refl)). apply IH. intros y Hy. apply H. right. exact Hy.
+  Qed.
+
+  Lemma internal_sendrq_one st s id h st1 o : internal_sendrq md5 cfg fs st s id h = Some (st1, o) -> exists b, o = [OEnq s id b].
+  Proof.
+    unfold internal_sendrq. cbv zeta. intro I.
+    destruct (sl_rq _); [discriminate|]. destruct (get_rq st h) as [r|]; [|discriminate].
+    destruct (rq_msg r) as [m|]; [|discriminate]. destruct (fs (100 + id)); [discriminate|].
+    destruct (radmsg2buf md5 (set_id m id) (sc_secret (srvconf_of cfg s))) as [[[b a]|]|]; try discriminate.
+    injection I as _ <-. exists b. reflexivity.
+  Qed.
+
+  Lemma sendrq_at_most_one st h : (length (filter is_enq (snd (sendrq md5 cfg fs st h))) <= 1)%nat.
+  Proof.
+    unfold sendrq. destruct (get_rq st h) as [r|]; [|cbn; lia]. cbv zeta.
+    destruct (rq_to r) as [s|]; [|cbn; lia].
+    match goal with |- context [if ?c then _ else _] => destruct c end.
+    - destruct (internal_sendrq md5 cfg fs st s 0 h) as [[st1 o1]|] eqn:I; [|cbn; lia].
+      destruct (internal_sendrq_one _ _ _ _ _ _ I) as [b ->]. cbn. lia.
+    - match goal with |- context [scan_ids md5 cfg fs 257 ?st0 s ?a Consts.MAX_REQUESTS h] =>
+        destruct (scan_ids md5 cfg fs 257 st0 s a Consts.MAX_REQUESTS h) as [[[k st1] o1]|] eqn:S1 end.
+      + destruct (scan_ids_some _ _ _ _ _ _ _ _ _ _ _ _ S1) as [_ E]. destruct (internal_sendrq_one _ _ _ _ _ _ E) as [b ->]. cbn. lia.
+      + match goal with |- context [scan_ids md5 cfg fs 257 ?st0 s ?a ?b' h] =>
+          destruct (scan_ids md5 cfg fs 257 st0 s a b' h) as [[[k st1] o1]|] eqn:S2 end; [|cbn; lia].
+        destruct (scan_ids_some _ _ _ _ _ _ _ _ _ _ _ _ S2) as [_ E]. destruct (internal_sendrq_one _ _ _ _ _ _ E) as [b ->]. cbn. lia.
+  Qed.
+
+  (* C01 "exactly once": one invocation of radsrv places at most one packet in a server table *)
+  Theorem radsrv_at_most_one st h c now rnd :
+    (length (filter is_enq (snd (radsrv md5 rx cfg fs st h c now rnd))) <= 1)%nat.
+  Proof.
+    unfold radsrv. destruct (get_rq st h) as [r0|]; [|cbn; lia]. cbv zeta.
+    assert (Ex : forall (stX : state) (o : list out), (forall x, In x o -> is_enq x = false) ->
+              (length (filter is_enq (snd (freerq stX h, o ++ [ORet 1]))) <= 1)%nat)
+      by (intros stX o Ho; cbn [snd]; rewrite (filter_no_enq o Ho); cbn; lia).
+    assert (Ex0 : forall stX : state, (length (filter is_enq (snd (freerq stX h, [] ++ [ORet 1]))) <= 1)%nat)
+      by (intro stX; cbn; lia).
+    assert (Re : forall stX code extra ma,
+              (length (filter is_enq (snd (let '(st1, o) := respond md5 cfg fs stX h code extra ma in (freerq st1 h, o ++ [ORet 1])))) <= 1)%nat).
+    { intros stX code extra ma. destruct (respond md5 cfg fs stX h code extra ma) as [st1 o] eqn:R. apply Ex.
+      intros y Hy. apply (respond_no_enq md5 cfg fs stX h code extra ma). rewrite R. exact Hy. }
+    destruct (fs 1); [cbn; lia|].
+    destruct (buf2radmsg md5 _ (cc_secret (clconf_of cfg c)) None) as [msg|]; [|cbn; lia].
+    destruct (m_mainvalid msg); [cbn; lia|].
+    destruct ((m_code msg =? Consts.RAD_Disconnect_Request) || (m_code msg =? Consts.RAD_CoA_Request)); [apply Re|].
+    destruct (negb _); [apply Ex0|].
+    destruct (addclientrq md5 cfg fs _ h c now) as [[isnew st1] o0] eqn:A.
+    destruct (negb isnew); [apply Ex; exact (addclientrq_no_enq md5 cfg fs _ _ _ _ _ _ _ A)|].
+    destruct (m_code msg =? Consts.RAD_Status_Server); [apply Re|].
+    match goal with |- context [if ?g then (freerq st1 h, [] ++ [ORet 1]) else _] => destruct g end; [apply Ex0|].
+    destruct (o_verifyeap (cf_opt cfg) && (m_code msg =? Consts.RAD_Access_Request) && negb (verifyeapformat (m_attrs msg))); [apply Re|].
+    match goal with |- context [match ?e with Some a1 => _ | None => (freerq _ h, [] ++ [ORet 1]) end] => destruct e as [a1|] end; [|apply Ex0].
+    destruct (checkttl (o_ttl0 (cf_opt cfg)) (o_ttl1 (cf_opt cfg)) a1) as [ttlres a2].
+    destruct (ttlres =? 0); [apply Ex0|].
+    destruct (gettype Consts.RAD_Attr_User_Name a2) as [ua|].
+    2:{ destruct (m_code msg =? Consts.RAD_Accounting_Request); [apply Re | apply Ex0]. }
+    match goal with |- context [match ?e with Some p => _ | None => (freerq _ h, [] ++ [ORet 1]) end] => destruct e as [[uname orig]|] end; [|apply Ex0].
+    destruct ((nlen uname =? 0) || fs 6); [apply Ex0|].
+    match goal with |- context [match ?e with Some rl => _ | None => (freerq _ h, [] ++ [ORet 1]) end] => destruct e as [rl|] end; [|apply Ex0].
+    match goal with |- context [choose ?stc ?l] => destruct (choose stc l) as [to stc'] end.
+    destruct to as [s'|].
+    2:{ destruct (rl_msg rl) as [txt|].
+        - destruct (m_code msg =? Consts.RAD_Access_Request); [apply Re|].
+          destruct (rl_accresp rl && (m_code msg =? Consts.RAD_Accounting_Request)); [apply Re | apply Ex0].
+        - destruct (rl_accresp rl && (m_code msg =? Consts.RAD_Accounting_Request)); [apply Re | apply Ex0]. }
+    match goal with |- context [if ?g then (freerq stc' h, [] ++ [ORet 1]) else _] => destruct g end; [apply Ex0|].
+    match goal with |- context [match ?e with Some a4 => _ | None => (freerq _ h, [] ++ [ORet 1]) end] => destruct e as [a4|] end; [|apply Ex0].
+    match goal with |- context [match ?e with Some a5 => _ | None => (freerq _ h, [] ++ [ORet 1]) end] => destruct e as [a5|] end; [|apply Ex0].
+    match goal with |- context [match ?e with Some a6 => _ | None => (freerq _ h, [] ++ [ORet 1]) end] => destruct e as [a6|] end; [|apply Ex0].
+    match goal with |- context [if ?g then (freerq _ h, [] ++ [ORet 1]) else _] => destruct g end; [apply Ex0|].
+    match goal with |- context [sendrq md5 cfg fs ?stf h] =>
+      pose proof (sendrq_at_most_one stf h) as K; destruct (sendrq md5 cfg fs stf h) as [stZ oZ] end.
+    cbn [snd] in *. rewrite filter_app. cbn [filter is_enq]. rewrite app_nil_r. exact K.
+  Qed.
+End O.
